@@ -162,7 +162,12 @@ with open(OUT + _TMP, 'w') as fh:
     for (f, t, mirror, mine, up) in rows:
         fmt = lambda ms: '[' + ', '.join(f"({nid[n]}, {'true' if p else 'false'})" for n, p in ms) + ']'
         lines.append(f"   -- {f}: {t} mirrors {mirror}\n   ({fmt(mine)}, {fmt(up)})")
-    fh.write(',\n'.join(lines) + '\n  ]\n\nend Unimock.Generated\n')
+    fh.write(',\n'.join(lines) + '\n  ]\n\n')
+    tnames = sorted({t for (_, t, _, _, _) in rows} | {mirror.split('::')[-1] for (_, _, mirror, _, _) in rows})
+    tid = {n: i for i, n in enumerate(tnames)}
+    fh.write('/-- trait names (index = id used below) -/\ndef traitNames : List String :=\n  [' + ', '.join(f'"{n}"' for n in tnames) + ']\n\n')
+    fh.write('/-- per mirrored trait: (name the mirror block declares — the one diagnostics print —, last segment of the `mirror=` path) -/\n')
+    fh.write('def mirrorNamePairs : List (Nat × Nat) :=\n  [' + ', '.join(f"({tid[t]}, {tid[mirror.split('::')[-1]]})" for (_, t, mirror, _, _) in rows) + ']\n\nend Unimock.Generated\n')
 _finalise(OUT + _TMP, OUT)
 print(f"translated {len(rows)} mirrored traits; problems: {problems}")
 for (f, t, mirror, mine, up) in rows:
@@ -170,4 +175,6 @@ for (f, t, mirror, mine, up) in rows:
     bad = [n for n in md if n not in ud or ud[n] != md[n]] + [n for n in ud if not ud[n] and n not in md]
     if bad:
         print('  MISMATCH', f, t, mirror, bad, [(n, md.get(n), ud.get(n)) for n in bad])
+    if t != mirror.split('::')[-1]:
+        print('  NAME-MISMATCH', f, f'the block mirroring {mirror} declares `trait {t}`: diagnostics will print {t}::<method>')
 sys.exit(3 if problems else 0)
